@@ -1,6 +1,8 @@
 """Native oracles for C18: flatten/unflatten round trips of landscapes and operators, closure-jit and
 equinox.filter_jit against eager application for instances of every operator class."""
+import atexit
 import os
+import shutil
 import tempfile
 import warnings
 
@@ -155,7 +157,9 @@ def _toast_file(seed):
     m = sp.random(6, 6, density=0.5, random_state=np.random.RandomState(seed), format='csr', dtype=np.float32)
     m = m + sp.identity(6, dtype=np.float32, format='csr') * float(rng.uniform(1, 2))
     m = m.tocsr()
-    path = os.path.join(tempfile.mkdtemp(prefix='c18-'), 'obs.npz')
+    d = tempfile.mkdtemp(prefix='c18-')
+    atexit.register(shutil.rmtree, d, True)
+    path = os.path.join(d, 'obs.npz')
     np.savez(path, format='csr', data=m.data.astype(np.float32), indices=m.indices, indptr=m.indptr, shape=np.array(m.shape))
     return path
 
